@@ -78,11 +78,14 @@ def check(ctx):
     traces3 = anngen.run(ctx.seed, ctx.pick(120, 1500), ctx.pick(8, 12), ["I1", "I6", "I2"], list("ABF"), tag="c12t")
     # an instance constructed with a Timings object of its own (another ANNOUNCE_TTL than the stack's) next to an ordinary one
     traces4 = anngen.run(ctx.seed, ctx.pick(90, 900), ctx.pick(8, 12), ["I1", "I7"], list("ABF"), tag="c12o")
-    bad, ms = judge(ctx, "Mon_C12", traces + traces2 + traces3 + traces4 + reboot_while_answer_pending() + restart_while_answer_pending(), "find histories", anngen.payload)
+    # the application queues its stop() with call_soon: it runs among the library's own callbacks of the next iteration
+    traces5 = anngen.run(ctx.seed, ctx.pick(120, 1500), ctx.pick(8, 12), ["I1", "I2", "I4"], list("BDEF"), tag="c12q", defer_share=0.5)
+    bad, ms = judge(ctx, "Mon_C12", traces + traces2 + traces3 + traces4 + traces5 + reboot_while_answer_pending() + restart_while_answer_pending(), "find histories", anngen.payload)
     sim = anngen.spec_to_code_ann(ctx, "Mon_C12", "C12_S", "C12_SInputs", "B", ["I1", "I4"], ["I1", "I4"], ctx.pick(20, 300))
     acc, total = anngen.conform_by_variant(ctx, traces, ctx.pick(100, 1000))
     acc4, total4 = anngen.conform_by_variant(ctx, traces4, ctx.pick(18, 150))
-    acc, total = acc + acc4, total + total4
+    acc5, total5 = anngen.conform_by_variant(ctx, traces5, ctx.pick(24, 200))
+    acc, total = acc + acc4 + acc5, total + total4 + total5
     cov = dict(states=m1.states, transitions=m1.trans, traces_validated_against_impl=acc, monitor_traces=len(traces),
                monitor_failures=bad, monitor_states=ms, conformance_traces=total, spec_drift=total - acc,
                tlc_runs=m1.runs, exhaustive=False, **sim,
